@@ -422,7 +422,7 @@ class Linearity(Rule):
                             c = c / f
                         else:
                             b = b / f
-                    return c * Limit(e.var, e.lim, b)
+                    return c * Limit(e.var, e.lim, b, e.drt)
                 else:
                     return e
             elif e.is_summation():
